@@ -17,6 +17,7 @@ import (
 	"strings"
 	"sync"
 	"sync/atomic"
+	"unicode/utf8"
 
 	"github.com/rogpeppe/go-internal/txtar"
 
@@ -366,7 +367,15 @@ func checkRoundTrip(root string, c rtCase, st *rtStats) string {
 	}
 	// plain text files must have been archived
 	for _, f := range c.Files {
-		plain := (f.Content == "x\n" || f.Content == "" || f.Content == "x") && (!dotted(f.Path) || has(c.Flags, "-a"))
+		// what txtar-c documents to leave out: dot files without -a, files that are
+		// not valid UTF-8, files holding a marker line without -quote. Everything
+		// else must be in the archive (a missing final newline is added, with -quote
+		// a marker file is quoted: NeedsQuote and Quote are C14's subject)
+		withNL := f.Content
+		if withNL != "" && !strings.HasSuffix(withNL, "\n") {
+			withNL += "\n"
+		}
+		plain := utf8.ValidString(f.Content) && (!dotted(f.Path) || has(c.Flags, "-a")) && (!txtar.NeedsQuote([]byte(withNL)) || has(c.Flags, "-quote"))
 		if _, ok := got[f.Path]; !ok {
 			if plain {
 				return fmt.Sprintf("plain text file %q = %q is missing after the round trip (archive %q)", f.Path, f.Content, archive.String())
